@@ -9,10 +9,9 @@ K1  Model/Ws.v (extracted run_ws / run_ws_otel) vs execute_ws of the two bundled
     connect-parameters stream.
 K3  the property's own oracle: the same real runs compared with the SPECIFICATION spec_ws
     (extracted too) on the observables of the property text (messages sent, values yielded,
-    connect parameters, close() calls, outcome).  Deviations are routed by the Coq guards
-    g_shape/g_nonnull (the OPEN finding classes); outside every class a deviation is a VIOLATION —
-    in particular the repaired classes F26 (frames after complete), C13-vars-not-json, F14 for {} data, whose
-    witnesses stay in the streams as regression cases.
+    connect parameters, close() calls, outcome).  No finding class is open any more (all five are
+    repaired in /repo): EVERY deviation from the specification is a VIOLATION; the former witnesses
+    stay in the streams and in the corpus as regression cases.
 RT  runtime-only: a sample of sequences against a REAL websockets server on 127.0.0.1 that plays
     the frames and records handshake (subprotocol, headers, origin) and the client's messages;
     also validates the fake connection (same trace).
@@ -96,6 +95,13 @@ MALFORMED = {
     "error-str": ("j", {"type": "error", "payload": "abc"}),
     "error-no-payload": ("j", {"type": "error", "id": "1"}),
     "error-empty-list": ("j", {"type": "error", "payload": []}),
+    # next whose data is null
+    "next-null-no-errors": ("j", {"type": "next", "payload": {"data": None}}),
+    "next-null-empty-errors": ("j", {"type": "next", "payload": {"data": None, "errors": []}}),
+    "next-null-bad-errors": ("j", {"type": "next", "payload": {"data": None, "errors": [{"text": "x"}]}}),
+    "next-null-errors-object": ("j", {"type": "next", "payload": {"data": None, "errors": {"message": "x"}}}),
+    "next-null-two-errors": ("j", {"type": "next", "payload": {"data": None, "errors": [{"message": "a", "path": ["x"]}, {"message": "b"}]}}),
+    "next-data-and-errors": ("j", {"type": "next", "payload": {"data": {"count": 7}, "errors": [{"message": "partial"}]}}),
 }
 # payload shapes on which "raises the multi-error on error" is met by an EMPTY multi-error although the
 # payload is not a list: compared with the model (K1) only, no verdict of the property oracle
@@ -118,7 +124,7 @@ CFG_SIDE = {
     "kw-other": {"url": "ws://h.test/g", "kw_other": {"ping_interval": None, "max_size": 1024}, "init_payload": {"a": 1}},
 }
 
-CLASSES = ["C13-shape-crash", "F14-null-data"]
+CLASSES = []   # all five former finding classes are repaired in /repo (known_findings/C13.json "fixed")
 
 
 # ----------------------------------------------------------------------------------------------
@@ -202,8 +208,7 @@ def _worker(task):
             continue
         m = {"plain": I.decode_trace(r[0]), "otel": I.decode_trace(r[1]), "otel-tracer": I.decode_trace(r[2])}
         spec = I.decode_trace(r[3])
-        g_shape, g_truthy = (x == "t" for x in r[4][:2])
-        kinds = [k if isinstance(k, str) else k[0] for k in r[4][2]]
+        kinds = [k if isinstance(k, str) else k[0] for k in r[4][0]]
         out["cases"] += 1
         acked = len(kinds) > 1 and kinds[0] == "ack"
         first_time = task[0] != "list" and tuple(letters) not in seen_seq
@@ -215,7 +220,7 @@ def _worker(task):
             for l in (letters or []):
                 dist("letters", l)
             dist("spec_outcome", spec["fin"] if isinstance(spec["fin"], str) else spec["fin"][0])
-            dist("guards", "shape%d truthy%d" % (g_shape, g_truthy))
+            dist("spec_kinds", " ".join(sorted(set(kinds))) or "(empty)")
         dist("config", f"{cname} vars-{vname}")
         sp = I.project(spec)
         for v in variants:
@@ -234,7 +239,7 @@ def _worker(task):
             dev = [k for k in ("connect", "sent", "yielded", "closes", "fin") if I.strict(ip[k]) != I.strict(sp[k])]
             cls = None
             if dev:
-                cls = "C13-shape-crash" if not g_shape else "F14-null-data" if not g_truthy else None
+                cls = None      # no finding class is open: every deviation from the specification is a violation
             if diffs:
                 if len(out["k1"]) < 5:
                     out["k1"].append({"replay": replay, "differs": diffs,
